@@ -1,7 +1,8 @@
 """C20 — state erasure: free functions wipe the whole public state on every
 non-null path; tinyjambu_clean wipes exactly n bytes; facts persist at -O3."""
 import os
-from ..build import Broken, run
+from ..build import Broken
+from ..build import run as sh
 from ..facts import Module, relpath, const_val
 from .. import ir
 
@@ -221,10 +222,10 @@ def gcc_reloc(ck, build):
         return
     src = os.path.join(build.repo, "src/backend/tinyjambu-clean.c")
     obj = os.path.join(build.dir, "gcc-clean.o")
-    p = run(["gcc", "-I" + os.path.join(build.repo, "src"), "-I" + build.variant_dir("H"), "-DHAVE_CONFIG_H", "-O3", "-std=gnu99", "-w", "-c", src, "-o", obj])
+    p = sh(["gcc", "-I" + os.path.join(build.repo, "src"), "-I" + build.variant_dir("H"), "-DHAVE_CONFIG_H", "-O3", "-std=gnu99", "-w", "-c", src, "-o", obj])
     if p.returncode != 0:
         raise Broken("gcc cannot compile clean.c")
-    nm = run(["llvm-nm-14", "-u", obj]).stdout
+    nm = sh(["llvm-nm-14", "-u", obj]).stdout
     ck.ob("explicit_bzero" in nm, "R-C20-SURVIVE", "tinyjambu_clean", "gcc-O3-import",
           "gcc -O3 object of clean.c still references explicit_bzero", "gcc -O3 object of clean.c has no reference to a zeroing primitive", where="src/backend/tinyjambu-clean.c")
 
